@@ -27,6 +27,7 @@ Inductive err :=
 | EAssertion           (* AssertionError *)
 | EKey                 (* KeyError *)
 | EOverflow            (* OverflowError raised by datetime arithmetic *)
+| EType                (* TypeError (None < 0 on a null legacy offset) *)
 | EUnmodelled.         (* outside the modelled sub-domain *)
 
 Inductive result (A : Type) :=
@@ -201,8 +202,12 @@ Inductive ts_repr :=
 | TsOther.                           (* anything else *)
 
 Inductive time_repr :=
-| TRDictNew (t : option ts_repr) (ob : option bytes)            (* has "offset_bytes"; None = not a bytes object *)
-| TRDictOld (t : option ts_repr) (offset : option Z) (neg : option bool)   (* legacy offset / negative_utc *)
+(* a dict; every key may be absent (outer None); unknown extra keys are ignored by the code and not represented.
+     t      : "timestamp"
+     ob     : "offset_bytes"  (Some None = present but not a bytes object)
+     offset : "offset"        (Some None = present with value None)
+     neg    : "negative_utc"  (absent, None and False all read as False:  .get("negative_utc") or False) *)
+| TRDict (t : option ts_repr) (ob : option (option bytes)) (offset : option (option Z)) (neg : option bool)
 | TRDatetime (d : adt)
 | TRNaive                                                       (* datetime without tzinfo *)
 | TRInt (v : pyval)                                             (* isinstance(x, int): VInt or VBool *)
@@ -220,14 +225,17 @@ Definition timestamp_of_repr (t : option ts_repr) : result timestamp :=
 
 Definition from_dict (r : time_repr) : result tstz :=
   match r with
-  | TRDictNew t ob =>
+  | TRDict t ob offset neg =>
       bind (timestamp_of_repr t) (fun t' =>
-        match ob with Some b => Ok (mkTstz t' b) | None => Err EAttributeType end)
-  | TRDictOld t offset neg =>
-      bind (timestamp_of_repr t) (fun t' =>
-        match offset with
-        | None => Err EKey
-        | Some off => from_numeric_offset t' off (match neg with Some b => b | None => false end)
+        match ob with
+        | Some (Some b) => Ok (mkTstz t' b)           (* "offset_bytes" in d: the recorded bytes win, whatever else is there *)
+        | Some None => Err EAttributeType
+        | None =>                                     (* old format *)
+            match offset with
+            | None => Err EKey                        (* time_representation["offset"] *)
+            | Some None => Err EType                  (* None < 0 *)
+            | Some (Some off) => from_numeric_offset t' off (match neg with Some b => b | None => false end)
+            end
         end)
   | TRDatetime d => from_datetime d
   | TRNaive => Err EValue
